@@ -562,6 +562,21 @@ Theorem C08_round_differs_r7rs : forall p,
 Proof. exact round_differs_r7rs. Qed.
 Print Assumptions C08_round_differs_r7rs.
 
+(* ... and that is the whole difference: the answer is the R7RS value exactly outside the decidable
+   class [round_r7rs_known] = a Rational n/2 whose truncation n quot 2 is even (1/2, 5/2, -5/2,
+   9/2 ...; not 3/2, 7/2) *)
+Theorem C08_round_r7rs_iff : forall p a, wfb a = true -> is_exact a = true ->
+  exists r z, num_round p a = Ok r /\ int_of r = Some z /\
+    (z = Qround_even (qv a) <-> round_r7rs_known a = false).
+Proof. exact round_r7rs_iff. Qed.
+Print Assumptions C08_round_r7rs_iff.
+
+Example C08_example_round_r7rs :
+  round_r7rs_known (Rational 5 2) = true /\ round_r7rs_known (Rational (-5) 2) = true /\
+  round_r7rs_known (Rational 7 2) = false /\ round_r7rs_known (Rational (-3) 2) = false /\
+  round_r7rs_known (Rational 5 3) = false /\ round_r7rs_known (Fixnum 4) = false.
+Proof. repeat split; vm_compute; reflexivity. Qed.
+
 (* the builtin procedures abs floor ceiling truncate round numerator denominator are these
    functions applied to their single argument *)
 Theorem C08_unary_builtin : forall u p x,
